@@ -318,7 +318,7 @@ func runC06(ctx *Ctx, idx int) {
 		// the instance loaded from the previous layout is still alive: it must
 		// answer as before now that another stream has been converted
 		if prevLegacy != nil {
-			prevLegacy.survivorCheck()
+			prevLegacy.survivorCheck(nil)
 		}
 		vb := ctx.nviol
 		legacyOracle(ctx, "C06", lc, lv.Name, o, ld, fresh, qs, 1)
